@@ -276,3 +276,16 @@ func atoi64(s string) int64 {
 	}
 	return n
 }
+
+
+// viaExtendable routes a store through the package's own ExtendablePersistenceLayer (persistence.go), so that the wrapper
+// methods the package offers to applications are part of every run. On the unchanged package they delegate one to one.
+func viaExtendable(p sessions.PersistenceLayer) sessions.PersistenceLayer {
+	return sessions.ExtendablePersistenceLayer{
+		LoadSessionFunc:   p.LoadSession,
+		SaveSessionFunc:   p.SaveSession,
+		DeleteSessionFunc: p.DeleteSession,
+		UserSessionsFunc:  p.UserSessions,
+		LoadUserFunc:      p.LoadUser,
+	}
+}
